@@ -56,6 +56,7 @@ type bInst struct {
 	mu           sync.Mutex
 	tags         cloud.InstanceTags
 	exists       bool
+	unlisted     bool // left the cloud's instance list but still answers ssh (e.g. shutting down)
 	booted       bool // answers the boot probe
 	responsive   bool // answers anything at all
 	broken       bool // --list says "broken"
@@ -68,11 +69,11 @@ type bInst struct {
 	created      bool         // created by this pool (else found in the cloud)
 }
 
-func (i *bInst) ID() cloud.InstanceID  { return i.id }
-func (i *bInst) String() string        { return string(i.id) }
-func (i *bInst) ProviderType() string  { return i.it.ProviderType }
-func (i *bInst) Address() string       { return "10.0.0.1:22" }
-func (i *bInst) RemoteUser() string    { return "root" }
+func (i *bInst) ID() cloud.InstanceID                           { return i.id }
+func (i *bInst) String() string                                 { return string(i.id) }
+func (i *bInst) ProviderType() string                           { return i.it.ProviderType }
+func (i *bInst) Address() string                                { return "10.0.0.1:22" }
+func (i *bInst) RemoteUser() string                             { return "root" }
 func (i *bInst) VerifyHostKey(ssh.PublicKey, *ssh.Client) error { return nil }
 func (i *bInst) Tags() cloud.InstanceTags {
 	i.mu.Lock()
@@ -114,10 +115,17 @@ type bHarness struct {
 	nextID   int
 	pending  []*bPending
 	createOK bool
+	killGate map[string]*bGate // uuid -> gate that parks the next --kill for it
 	hist     []string
 	// R1 bookkeeping: uuid -> instance the pool started it on / saw it on
 	expect map[string]*bExpect
 	labels map[string]bool
+}
+
+type bGate struct {
+	arrived chan struct{}
+	release chan struct{}
+	once    sync.Once
 }
 
 type bExpect struct {
@@ -154,7 +162,7 @@ func (h *bHarness) Instances(cloud.InstanceTags) ([]cloud.Instance, error) {
 	defer h.mu.Unlock()
 	var r []cloud.Instance
 	for _, i := range h.insts {
-		if i.exists {
+		if i.exists && !i.unlisted {
 			r = append(r, i)
 		}
 	}
@@ -243,6 +251,14 @@ func (e *bExec) Execute(env map[string]string, cmd string, stdin io.Reader) (std
 	case strings.HasPrefix(cmd, "crunch-run --kill "):
 		uuid := bUUIDRe.FindString(cmd)
 		h.mu.Lock()
+		gate := h.killGate[uuid]
+		delete(h.killGate, uuid)
+		h.mu.Unlock()
+		if gate != nil {
+			gate.once.Do(func() { close(gate.arrived) })
+			<-gate.release
+		}
+		h.mu.Lock()
 		defer h.mu.Unlock()
 		if !inst.exists || !inst.responsive {
 			return fail("no answer")
@@ -290,7 +306,7 @@ func TestVerifC14bPool(t *testing.T) {
 	logger.Out = ioutil.Discard
 	types := []arvados.InstanceType{bType(1), bType(2)}
 	rapid.Check(t, func(t *rapid.T) {
-		h := &bHarness{createOK: true, expect: map[string]*bExpect{}, labels: map[string]bool{}}
+		h := &bHarness{createOK: true, expect: map[string]*bExpect{}, labels: map[string]bool{}, killGate: map[string]*bGate{}}
 		hour := arvados.Duration(time.Hour)
 		cluster := &arvados.Cluster{
 			Containers: arvados.ContainersConfig{
@@ -901,6 +917,72 @@ func TestVerifC14bPool(t *testing.T) {
 					h.labels["unkillable"] = true
 					h.logf("  -> gave up, %s drains unless held", inst.id)
 				}
+			},
+			// A --kill is in flight when the instance leaves the cloud's list
+			// (Pool.sync drops the worker and closes its runners) and then
+			// succeeds: onKilled -> closeRunner must cope with a runner that
+			// worker.Close() has already closed.
+			"killWhileInstanceVanishes": func(t *rapid.T) {
+				uuid := bUUID(rapid.SampledFrom([]int{1, 2, 3, 4, 10, 11}).Draw(t, "uuid"))
+				var rr *remoteRunner
+				var wkr *worker
+				killed := make(chan string, 1)
+				wp.mtx.Lock()
+				for _, w := range wp.workers {
+					if r := w.running[uuid]; r != nil && !r.stopping && w.state != StateShutdown {
+						rr, wkr = r, w
+						r.timeoutTERM = time.Hour
+						orig := r.onKilled
+						var once sync.Once
+						r.onKilled = func(u string) {
+							msg := ""
+							defer func() {
+								if p := recover(); p != nil {
+									msg = fmt.Sprint(p)
+								}
+								once.Do(func() { killed <- msg })
+							}()
+							orig(u)
+						}
+					}
+				}
+				wp.mtx.Unlock()
+				if rr == nil {
+					t.Skip("not running anywhere")
+				}
+				inst := wkr.instance.(TagVerifier).Instance.(*bInst)
+				h.mu.Lock()
+				ok := inst.exists && inst.responsive
+				gate := &bGate{arrived: make(chan struct{}), release: make(chan struct{})}
+				if ok {
+					h.killGate[uuid] = gate
+				}
+				h.mu.Unlock()
+				if !ok {
+					t.Skip("instance does not answer")
+				}
+				wp.KillContainer(uuid, "verif")
+				<-gate.arrived
+				h.mu.Lock()
+				inst.unlisted = true
+				h.mu.Unlock()
+				guarded("sync", func() { wp.getInstancesAndSync() })
+				waitFor("worker.Close", func() bool {
+					wp.mtx.Lock()
+					defer wp.mtx.Unlock()
+					return rr.isClosed()
+				})
+				close(gate.release)
+				msg := <-killed
+				h.mu.Lock()
+				inst.exists = false
+				h.mu.Unlock()
+				h.labels["kill-in-flight-while-instance-vanishes"] = true
+				h.logf("killWhileInstanceVanishes(%s on %s): --kill parked, instance unlisted, sync dropped+closed the worker, --kill returned 0", uuid, inst.id)
+				if msg != "" {
+					t.Fatalf("R3: panic %q in onKilled->closeRunner: worker.Close() (from Pool.sync) had already closed the runner but left it in wkr.running\nhistory:\n%s", msg, strings.Join(h.hist, "\n"))
+				}
+				nActions++
 			},
 			"forget": func(t *rapid.T) {
 				uuid := bUUID(rapid.SampledFrom([]int{1, 2, 3, 4, 10, 11}).Draw(t, "uuid"))
